@@ -5,6 +5,7 @@ CONSTANTS
   Vals = {1, 2, 3}
 INVARIANTS
   SizesAddUp
+  TreeShape
   EachClusterOnce
   Monotone
   MachineInSet
